@@ -37,6 +37,8 @@ def impl(py):
     list(_o.ticks(23))
     _o.tickFormat(23)
     _o.nice()
+    _o2 = LinearScale().domain([-8.25, 1.5])
+    list(_o2.ticks(py["m"])) if py["m"] is not None else list(_o2.ticks())
     r = s.nice(py["m"])
     d = s.domain()
     step = sc.d3_scale_linearTickRange(list(d), py["m"])[2]
